@@ -10,6 +10,7 @@ import (
 	"strconv"
 	"strings"
 	"sync"
+	"sync/atomic"
 	"testing"
 	"time"
 
@@ -41,7 +42,17 @@ const (
 	c10Stall
 )
 
-const c10Wait = 10 * time.Second // bound of every wait; never reached unless the loop is stuck
+// Bound of every wait; never reached unless the loop is stuck.  Once two waits of a run have expired the
+// code under test is broken (those cases already fail), and later waits are cut short so that the run
+// still ends with a replayable case instead of a test time-out.
+var c10Expired atomic.Int32
+
+func c10Wait() time.Duration {
+	if c10Expired.Load() >= 2 {
+		return 200 * time.Millisecond
+	}
+	return 10 * time.Second
+}
 
 type c10Ent struct {
 	kind  int
@@ -282,7 +293,7 @@ func c10Run(sc c10Script) []c10Ent {
 	next := 10 // event ids of sends start at 11; the start-up batch uses 1..3
 	send := func(e int) {
 		w.add(c10Ent{kind: c10SendStart, e: e})
-		tm := time.NewTimer(c10Wait)
+		tm := time.NewTimer(c10Wait())
 		defer tm.Stop()
 		select {
 		case eventCh <- e:
@@ -290,6 +301,7 @@ func c10Run(sc c10Script) []c10Ent {
 		case <-returned:
 			w.add(c10Ent{kind: c10SendAbort, e: e})
 		case <-tm.C:
+			c10Expired.Add(1)
 			w.add(c10Ent{kind: c10Stall, e: 2})
 		}
 	}
@@ -308,7 +320,7 @@ func c10Run(sc c10Script) []c10Ent {
 	}
 	quiesce := func() {
 		w.setFree(true)
-		deadline := time.Now().Add(c10Wait)
+		deadline := time.Now().Add(c10Wait())
 		for {
 			w.mu.Lock()
 			ok := w.nBegin == w.nEnd && w.nEnd >= 1
@@ -320,6 +332,7 @@ func c10Run(sc c10Script) []c10Ent {
 			if ok {
 				w.addLocked(c10Ent{kind: c10Quiet})
 			} else if time.Now().After(deadline) {
+				c10Expired.Add(1)
 				w.addLocked(c10Ent{kind: c10Stall, e: 0})
 				ok = true
 			}
@@ -387,10 +400,11 @@ func c10Run(sc c10Script) []c10Ent {
 		doCancel()
 	}
 	w.setFree(true)
-	tm := time.NewTimer(c10Wait)
+	tm := time.NewTimer(c10Wait())
 	select {
 	case <-returned:
 	case <-tm.C:
+		c10Expired.Add(1)
 		w.add(c10Ent{kind: c10Stall, e: 1})
 	}
 	tm.Stop()
